@@ -49,6 +49,18 @@ def peak_locator(repo, rep):
             rep.ok("R-C02-1", s.where, f"ipeak argument {unparse(s.args[0])}", why)
         else:
             rep.fail("R-C02-1", s.fi.file, s.line, s.fi.qualname, f"apply_ufunc({'/'.join(sorted(names))}, {unparse(s.args[0])}, ...)", why)
+    # every peak statistic of xrstats goes through its npstats kernel (the kernel holds the `ipeak == 0 -> NaN` guard): a function that
+    # still computes a peak index but no longer hands it to a peak kernel has bypassed the no-peak case
+    delegating = {s.fi.qualname for s in sites(repo) if {k.name for k in s.kernels() if k.module.name.endswith("npstats")} & PEAK_KERNELS}
+    xs = repo.module("wavespectra.core.xrstats")
+    for fi_ in xs.funcs.values():
+        uses_peak = any(isinstance(c, ast.Call) and isinstance(c.func, ast.Attribute) and c.func.attr == "_peak" for c in ast.walk(fi_.node))
+        if uses_peak and fi_.qualname not in delegating:
+            c0 = next(c for c in ast.walk(fi_.node) if isinstance(c, ast.Call) and isinstance(c.func, ast.Attribute) and c.func.attr == "_peak")
+            rep.fail("R-C02-1", fi_.file, c0.lineno, fi_.qualname, unparse(c0)[:90],
+                     "the peak index is used directly instead of being handed to a peak kernel of npstats: index 0 means 'no interior peak' and the kernels "
+                     "turn it into NaN; used as a position it selects the first frequency bin", anchor=f"peak-kernel-bypassed:{fi_.name}")
+            n += 1
     rep.floor("R-C02-1", "apply_ufunc sites with a peak kernel", n, 3)
     # derived statistics reach the same locator through tp / peak_wave_period
     for qual, must_call in (("wavespectra.specarray.SpecArray.fp", "tp"), ("wavespectra.specarray.SpecArray.gamma", "fp"),
@@ -507,7 +519,87 @@ def alpha_window_keeps_bin(repo, rep):
         rep.fail("R-C02-10", fi.file, fi.node.lineno, fi.qualname, "tail window with exactly one frequency", "no replacement pair is built for a window holding one frequency")
 
 
+def parabola_vertex(repo, rep):
+    """R-C02-11: every value npstats.tps returns is 1 / (abscissa of the vertex of the parabola through the peak bin and its two neighbours),
+    decided algebraically: the returned expression, with the locals on its path substituted, is brought to a rational-function normal
+    form over the six sampled quantities and compared with the Lagrange form of the vertex - under the equality a dominating test states
+    (e.g. an evenly-spaced shortcut: f3 = 2 f2 - f1)."""
+    from ..ratfun import rat_of, Rat, NotRational, solve_linear_equality
+    from ..astutil import path_conditions
+    from ..cast import Poly
+    rep.rule("R-C02-11", "npstats.tps returns the reciprocal of the vertex abscissa of the three-point parabola on every path (rational-function identity, "
+                         "sub-case shortcuts checked under their own condition)")
+    fi = repo.func("wavespectra.core.npstats.tps")
+    ps = fi.params
+    if len(ps) < 3:
+        raise AnalysisError("npstats.tps signature changed")
+    ip, sp, fr = ps[0], ps[1], ps[2]
+    def q(a, off):
+        return {-1: f"{a}[{ip}-1]", 0: f"{a}[{ip}]", 1: f"{a}[{ip}+1]"}[off]
+    F = [Rat(Poly.var(q(fr, o))) for o in (-1, 0, 1)]
+    E = [Rat(Poly.var(q(sp, o))) for o in (-1, 0, 1)]
+    two = Rat(Poly.const(2))
+    num = E[0] * (F[1] * F[1] - F[2] * F[2]) + E[1] * (F[2] * F[2] - F[0] * F[0]) + E[2] * (F[0] * F[0] - F[1] * F[1])
+    den = two * (E[0] * (F[1] - F[2]) + E[1] * (F[2] - F[0]) + E[2] * (F[0] - F[1]))
+    ref = den / num          # 1 / vertex
+    nret = 0
+
+    def env_at(ret):
+        env = {}
+        def visit(stmts):
+            for st in stmts:
+                if st is ret:
+                    return True
+                if isinstance(st, ast.Assign) and len(st.targets) == 1 and isinstance(st.targets[0], ast.Name):
+                    env[st.targets[0].id] = st.value
+                elif any(x is ret for x in ast.walk(st)):
+                    for fld in ("body", "orelse", "finalbody"):
+                        blk = getattr(st, fld, None)
+                        if isinstance(blk, list) and any(x is ret for b in blk for x in ast.walk(b)):
+                            return visit(blk)
+                    return True
+            return False
+        visit(fi.node.body)
+        return env
+    for r in [n for n in ast.walk(fi.node) if isinstance(n, ast.Return)]:
+        if r.value is None or unparse(r.value) in ("np.nan", "numpy.nan", "float('nan')", "nan"):
+            continue
+        nret += 1
+        env = env_at(r)
+        try:
+            got = rat_of(r.value, env)
+            if not got.vars() <= ref.vars():
+                raise AnalysisError(f"npstats.tps: quantities {sorted(got.vars() - ref.vars())} of the returned value are not the peak bin / its neighbours "
+                                    "as the rule knows them (sampling idiom not recognised)")
+            ref_, got_ = ref, got
+            for test, truth in path_conditions(fi.node, r):
+                if not truth:
+                    continue
+                pair = None
+                if isinstance(test, ast.Call) and call_name(test).split(".")[-1] in ("isclose", "allclose") and len(test.args) >= 2:
+                    pair = (test.args[0], test.args[1])
+                elif isinstance(test, ast.Compare) and len(test.ops) == 1 and isinstance(test.ops[0], ast.Eq):
+                    pair = (test.left, test.comparators[0])
+                if pair is not None:
+                    sol = solve_linear_equality(pair[0], pair[1], env)
+                    if sol is not None:
+                        ref_, got_ = ref_.subst(*sol), got_.subst(*sol)
+            same = got_.equals(ref_)
+        except NotRational as e:
+            rep.fail("R-C02-11", fi.file, r.lineno, fi.qualname, unparse(r)[:100], f"the returned value is not a rational function of the three sampled points ({e}): "
+                     "it cannot be the parabola vertex", anchor="tps:vertex")
+            continue
+        if same:
+            rep.ok("R-C02-11", f"{fi.file}:{r.lineno} tps", unparse(r)[:80], "equals 1 / vertex of the parabola through (f1,e1), (f2,e2), (f3,e3) as a rational function")
+        else:
+            rep.fail("R-C02-11", fi.file, r.lineno, fi.qualname, unparse(r)[:100],
+                     "this return value is not the reciprocal of the parabola vertex (-b/2a of the quadratic through the peak bin and its two neighbours): "
+                     "the smoothed peak period / frequency is displaced", anchor="tps:vertex")
+    rep.floor("R-C02-11", "value-returning paths of npstats.tps", nret, 1)
+
+
 def run(repo, rep, tier):
+    parabola_vertex(repo, rep)
     alpha_window_keeps_bin(repo, rep)
     rep.rule("R-C02-9", "(shared with C10) no peak parameter is masked by comparing an energy-dependent quantity with an absolute constant: a clear peak of a "
                         "low-energy spectrum is still a peak")
